@@ -115,9 +115,11 @@ func (tableCache) BlockRootToSlot(_ context.Context, r phase0.Root) (phase0.Slot
 	case root('A'):
 		return c07Slot, nil
 	case root('B'):
-		return c07Slot - 2, nil
-	case root('I'), root('J'):
 		return c07Slot - 1, nil
+	case root('I'), root('J'):
+		return c07Slot, nil
+	case root('G'): // the genesis block: its slot, 0, is an answer like any other
+		return 0, nil
 	}
 	return 0, errors.New("unknown root")
 }
@@ -147,12 +149,15 @@ func c07AttData(k byte) *phase0.AttestationData {
 	switch k {
 	case 'A':
 		d.BeaconBlockRoot = root('A')
-	case 'B':
+	case 'B': // as A, but voting for the block of the slot before: only the nearness of the head separates them
 		d.BeaconBlockRoot = root('B')
-		d.Source.Epoch = 1
 	case 'C': // the head of A with another source checkpoint: a different value that agrees with A on the head
 		d.BeaconBlockRoot = root('A')
 		d.Source.Epoch = 1
+	case 'G': // as A, but voting for the genesis block (slot 0): the farthest head the cache knows
+		d.BeaconBlockRoot = root('G')
+	case 'K': // as A, but voting for a block the cache cannot find: no nearness bonus at all
+		d.BeaconBlockRoot = root('K')
 	case 'I':
 		d.BeaconBlockRoot = root('I')
 		d.Target.Epoch = 2
@@ -252,6 +257,11 @@ func (p bpProv) Proposal(ctx context.Context, _ *api.ProposalOpts) (*api.Respons
 		exec = new(big.Int).Mul(big.NewInt(30), eth)
 	}
 	cons := new(big.Int).Div(new(big.Int).Mul(big.NewInt(3), eth), big.NewInt(100))
+	if k == 'H' {
+		// an answer without error whose contents are missing (the version says Deneb, there is no Deneb block), worth more than any other
+		return &api.Response[*api.VersionedProposal]{Data: &api.VersionedProposal{Version: spec.DataVersionDeneb, ConsensusValue: cons,
+			ExecutionValue: new(big.Int).Mul(big.NewInt(40), eth)}, Metadata: map[string]any{}}, nil
+	}
 	blk := &bellatrix.BeaconBlock{Slot: c07Slot, ParentRoot: root(k), Body: &bellatrix.BeaconBlockBody{
 		ETH1Data:         &phase0.ETH1Data{BlockHash: make([]byte, 32)},
 		SyncAggregate:    &altair.SyncAggregate{SyncCommitteeBits: bitfield.NewBitvector512()},
@@ -370,7 +380,7 @@ func c07Strats() []c07Strat {
 	}
 	_ = ct
 	return []c07Strat{
-		{name: "attestationdata/best", fam: "best", kinds: "ABIJE", mk: func(e *c07Env) func(context.Context) (byte, error) {
+		{name: "attestationdata/best", fam: "best", kinds: "ABGKIJE", mk: func(e *c07Env) func(context.Context) (byte, error) {
 			s, err := adbest.New(bg, adbest.WithLogLevel(zerolog.Disabled), adbest.WithClientMonitor(mon), adbest.WithProcessConcurrency(4),
 				adbest.WithTimeout(c07Timeout), adbest.WithChainTime(newChainTime(0, 12*time.Second, 32)), adbest.WithBlockRootToSlotCache(tableCache{}),
 				adbest.WithAttestationDataProviders(adProviders(e)))
@@ -430,7 +440,7 @@ func c07Strats() []c07Strat {
 				return aaLabel(r, err)
 			}
 		}},
-		{name: "beaconblockproposal/best", fam: "best", kinds: "ABIE", mk: func(e *c07Env) func(context.Context) (byte, error) {
+		{name: "beaconblockproposal/best", fam: "best", kinds: "ABIHE", mk: func(e *c07Env) func(context.Context) (byte, error) {
 			m := map[string]eth2client.ProposalProvider{}
 			for i, n := range names(len(e.nodes)) {
 				m[n] = bpProv{e, i}
@@ -577,8 +587,12 @@ func c07Strats() []c07Strat {
 func c07Score(k byte) int {
 	switch k {
 	case 'A', 'C':
-		return 2
+		return 4
 	case 'B':
+		return 3
+	case 'G':
+		return 2
+	case 'K':
 		return 1
 	}
 	return 0
@@ -717,7 +731,7 @@ func c07Check(st *c07Strat, e *c07Env, r *mc.Result) mc.Verdict {
 		return fail("returned-after-timeout", "returned after the configured timeout")
 	}
 	valid := func(k byte) bool {
-		return k == 'A' || k == 'B' || k == 'C' || ((k == 'I' || k == 'J') && !strings.Contains(st.kinds, "I"))
+		return k == 'A' || k == 'B' || k == 'C' || k == 'G' || k == 'K' || ((k == 'I' || k == 'J') && !strings.Contains(st.kinds, "I"))
 	}
 	// arrival sets
 	type arr struct {
